@@ -331,6 +331,31 @@ def extra_mutations(orig_xml, level, other_xml=None):
             h.append(oac)
             f.insert(1, h)
             emit("wrap-assertion:Extensions:orig-stripped:%s" % idkind, f)
+    # --- look-alike identifiers: the forged element's ID differs from the original's only by white space or case and
+    #     the COMPLETE signed original is nested first inside the forged element (a pre-check that normalises the ID it
+    #     looks up - strip(), lower() - would inspect the nested original while the tool is told the raw ID)
+    for idkind, alike in (("trailing-space-id", lambda v: v + " "), ("leading-space-id", lambda v: " " + v),
+                          ("upper-case-id", lambda v: v.upper())):
+        if level in ("response", "both"):
+            oc = fresh()
+            f = forged_doc(rid=alike(oc.get("ID")))
+            h = ET.Element("{%s}Extensions" % SAMLP)
+            h.append(oc)
+            f.insert(0, h)
+            emit("nest-response:original-first-inside-forged:no-own-signature:%s" % idkind, f)
+            f2 = copy.deepcopy(f)
+            f2.append(copy.deepcopy(_sigchild(oc)))
+            emit("nest-response:original-first-inside-forged:copy-last:%s" % idkind, f2)
+        if level in ("assertion", "both") and oa is not None and _sigchild(oa) is not None:
+            oc = fresh()
+            oac = oc.find(ASSERTION)
+            f = forged_doc(aid=alike(oac.get("ID")))
+            fa = f.find(ASSERTION)
+            fa.find("{%s}Issuer" % SAML).append(oac)
+            emit("nest-assertion:original-first-inside-forged:no-own-signature:%s" % idkind, f)
+            f2 = copy.deepcopy(f)
+            f2.find(ASSERTION).append(copy.deepcopy(_sigchild(oac)))
+            emit("nest-assertion:original-first-inside-forged:copy-last:%s" % idkind, f2)
     # --- both signatures required: one message suffices under a first/last-wins tool, two are needed under a refusing one
     if level == "both":
         for second in ("same-message", "other-message"):
